@@ -40,6 +40,8 @@ func evoScenarios(sup *schema.Support) []evoScenario {
 	add("MsgArr", schema.Field{Name: "x", Index: 3, Type: schema.A(sup.Leaf("SupMsg"))})
 	add("Two", schema.Field{Name: "x", Index: 3, Type: schema.P("int32")}, schema.Field{Name: "y", Index: 9, Type: schema.P("string")})
 	add("Hi", schema.Field{Name: "x", Index: 200, Type: schema.P("uint16")})
+	// two-digit indices next to one-digit ones (10 and 11 sort before 2 as text)
+	add("TwoDigit", schema.Field{Name: "x", Index: 10, Type: schema.P("int32")}, schema.Field{Name: "y", Index: 11, Type: schema.P("string")}, schema.Field{Name: "z", Index: 100, Type: schema.P("byte")})
 	// the reader has deprecated a field the writer still sends
 	o := base("EvDepOld")
 	o.Fields[1].Deprecated = true
@@ -96,6 +98,14 @@ func evoContainers(id string, e *schema.Record) []*schema.Case {
 	out = append(out, mk("DAA", &schema.Record{Kind: schema.Struct, Fields: []schema.Field{{Name: "xs", Type: schema.A(schema.A(sfT))}, after}}))
 	out = append(out, mk("DPA", &schema.Record{Kind: schema.Struct, Fields: []schema.Field{{Name: "inner", Type: schema.A(schema.R(ar))}, after}}))
 	out = append(out, mk("D3", &schema.Record{Kind: schema.Struct, Fields: []schema.Field{{Name: "inner", Type: schema.A(schema.R(dp))}, {Name: "one", Type: schema.R(dp)}, after}}))
+	// a holder struct DECLARED as a union branch and reused by name as a field type elsewhere
+	bh := &schema.Record{Kind: schema.Struct, Inline: true, Name: id + "BH", Fields: []schema.Field{{Name: "m", Type: et}, after}}
+	bo := &schema.Record{Kind: schema.Struct, Inline: true, Name: id + "BO", Fields: []schema.Field{{Name: "v", Type: schema.P("int32")}}}
+	out = append(out, mk("BHU", &schema.Record{Kind: schema.Union, Branches: []schema.Branch{{Disc: 1, Rec: bh}, {Disc: 2, Rec: bo}}}))
+	bhT := schema.R(bh)
+	out = append(out, mk("BHS", &schema.Record{Kind: schema.Struct, Fields: []schema.Field{{Name: "h", Type: bhT}, after}}))
+	out = append(out, mk("BHA", &schema.Record{Kind: schema.Struct, Fields: []schema.Field{{Name: "hs", Type: schema.A(bhT)}, after}}))
+	out = append(out, mk("BHM", &schema.Record{Kind: schema.Message, Fields: []schema.Field{{Name: "h", Index: 1, Type: bhT}, {Name: "after", Index: 2, Type: schema.P("int32")}}}))
 	// the union holding the evolved message, itself nested with something after it
 	un := out[5].Rec
 	out = append(out, mk("NUS", &schema.Record{Kind: schema.Struct, Fields: []schema.Field{{Name: "u", Type: schema.R(un)}, after}}))
